@@ -158,6 +158,8 @@ def laguerre_der(n, alpha, x):
     # see wiki
     # d^k/dx^k L_n^alpha = (-1)^k L_(n-k)^(alpha+k)
     k = 1
+    # the derivative is floating point, also on an integer grid (-x wraps around in an unsigned type)
+    x = np.asarray(x, dtype=np.result_type(x, 1.0))
     if n < k:
         return np.zeros_like(x)
 
